@@ -28,6 +28,9 @@ type vgBehaviour struct {
 	Pool  int      `json:"pool"`
 	Steps []vgStep `json:"steps"`
 	Free  bool     `json:"free"`
+	// after the schedule: an ICE restart (CreateOffer with ICERestart) whose SetLocalDescription runs while
+	// the second gathering is held before its first callback
+	Restart bool `json:"restart"`
 }
 
 func vgNewVnetPC(t *testing.T, pool uint8) (*PeerConnection, *vnet.Router) {
@@ -294,5 +297,72 @@ func vgRun(t *testing.T, tr *vkTrace, bh vgBehaviour) bool { //nolint:cyclop
 	local, _ := pc.iceGatherer.GetLocalCandidates()
 	tr.Emit(vkM{"ev": "end", "t": bh.ID, "c": "", "id": "", "by": "", "ordered": ordered, "quiesced": quiesced, "gathered": len(local),
 		"flushes": len(startedS), "driven": driven, "nilcb": nilCbDone.Load(), "stoppedAt": stoppedAt, "sig": fmt.Sprintf("end(pool=%d,flushes=%d)", bh.Pool, len(startedS))})
+	if bh.Restart && quiesced && len(startedS) > 0 {
+		vgRestart(t, tr, bh, pc, &gates, classify, &nilCbActive, &nilCbDone)
+	}
 	return driven
+}
+
+// vgRestart: a second gathering of the same connection. The agent's callbacks are held before the first
+// one while SetLocalDescription of the restarting offer flushes; then they run. The trace gets a
+// "restart" line (a new gathering begins: its candidates and its end-of-gathering marker are counted anew).
+func vgRestart(t *testing.T, tr *vkTrace, bh vgBehaviour, pc *PeerConnection, gates **vkGates,
+	classify func(int64, string, string, any) string, nilCbActive, nilCbDone *atomic.Bool,
+) {
+	t.Helper()
+	g2 := vkNewGates(classify)
+	g2.deadline = time.Duration(vkEnvInt("VERIF_STEP_MS", 200)) * time.Millisecond
+	*gates = g2 // the hook and classify go through this variable
+	nilCbActive.Store(false)
+	nilCbDone.Store(false)
+	tr.Emit(vkM{"ev": "restart", "t": bh.ID, "c": "", "id": "", "by": "", "ordered": true, "sig": "restart"})
+	if pc.SignalingState() == SignalingStateHaveLocalOffer { // complete the exchange under way with a throw-away peer
+		b, err := NewPeerConnection(Configuration{})
+		if err != nil {
+			t.Fatal(err)
+		}
+		defer func() { _ = b.Close() }()
+		ok := false
+		if ld := pc.PendingLocalDescription(); ld != nil && b.SetRemoteDescription(*ld) == nil {
+			if ans, e := b.CreateAnswer(nil); e == nil {
+				ok = pc.SetRemoteDescription(ans) == nil
+			}
+		}
+		if !ok {
+			g2.ReleaseAll()
+			return
+		}
+	}
+	offer, err := pc.CreateOffer(&OfferOptions{ICERestart: true})
+	if err != nil {
+		g2.ReleaseAll()
+		return
+	}
+	held := g2.Await("A") == "gather.cb.enter" // the second gathering waits before its first report
+	var sldErr atomic.Value
+	sldErr.Store("")
+	g2.Go("S3", func() {
+		if e := pc.SetLocalDescription(offer); e != nil {
+			sldErr.Store(e.Error())
+		}
+	})
+	for i := 0; i < 40; i++ {
+		p := g2.Step("S3")
+		if p == vkDone || p == "" {
+			break
+		}
+	}
+	g2.ReleaseAll()
+	end := time.Now().Add(3 * time.Second)
+	quiesced := false
+	for time.Now().Before(end) {
+		if nilCbDone.Load() && g2.Finished("S3") {
+			quiesced = true
+			break
+		}
+		time.Sleep(100 * time.Microsecond)
+	}
+	local, _ := pc.iceGatherer.GetLocalCandidates()
+	tr.Emit(vkM{"ev": "end", "t": bh.ID, "c": "", "id": "", "by": "", "ordered": true, "quiesced": quiesced, "gathered": len(local),
+		"flushes": 1, "driven": held, "nilcb": nilCbDone.Load(), "stoppedAt": "", "sldErr": sldErr.Load(), "sig": fmt.Sprintf("end(restart,pool=%d)", bh.Pool)})
 }
